@@ -824,6 +824,38 @@ def rule_update_order(prog):
             "`%s` on the change list applies them to a text they were not computed for" % (reord[0]["m"] if reord else ""))
     out.add("AnalyzedSource::update", "lexer sees the edited text and the same change; the parser gets that lexer run's TokenChange and the new tokens",
             ok, c.loc(b["sp"]), "")
+    # every change is applied: the only way out of update() in front of the per-change step is "there is no change".  A shortcut that looks
+    # at one of the changes (`if changes.last().range == 0..self.text.len() { return Self::new(..) }`) judges that change against a text
+    # it was not computed for - the changes in front of it were never applied - and drops them
+    ch_ids = set()
+    for q_ in b["params"]:
+        for bd in hir.pat_bindings(q_):
+            if "TextChange" in c.tstr(bd["bt"]):
+                ch_ids.add(bd["id"])
+    shortcut = None
+    shortcut_undecided = False
+    n_ret = 0
+    for r_, rps in hir.walk(b["body"]):
+        if r_.get("k") != "Ret" or any(q_.get("k") == "Closure" for q_ in rps):
+            continue
+        n_ret += 1
+        for q_ in rps:
+            if q_.get("k") != "If" or not any(z_ is r_ for z_ in hir.nodes(q_["then"])):
+                continue
+            cnd_ = hir.strip(q_["cond"])
+            plain_empty = cnd_.get("k") == "MethodCall" and cnd_["m"] == "is_empty" and (hir.path_local(hir.strip_ref(hir.strip(cnd_["recv"]))) or {}).get("id") in ch_ids
+            if not plain_empty and any((hir.path_local(z_) or {}).get("id") in ch_ids for z_ in hir.nodes(q_["cond"])):
+                # (a shortcut for a batch of exactly one change skips nothing: not decided here)
+                single = any(z_.get("k") == "Binary" and z_["op"] == "==" and hir.lit_value(hir.strip(z_["r"])) in ("1", 1) and
+                             hir.strip(z_["l"]).get("k") == "MethodCall" and hir.strip(z_["l"])["m"] == "len" for z_ in hir.nodes(q_["cond"]))
+                if single:
+                    shortcut_undecided = True
+                else:
+                    shortcut = shortcut or q_
+    out.add("AnalyzedSource::update", "no change of a batch is skipped (the only early exit is the empty batch)",
+            (shortcut is None) if (shortcut is not None or not shortcut_undecided) else None,
+            c.loc((shortcut or b)["sp"]), "update() returns early under a condition on the changes other than `is_empty()`: the changes that were not "
+            "looked at are dropped, and the one that was is judged against a text it was not computed for (%d early exits)" % n_ret, ("all",))
     return out
 
 
@@ -1593,9 +1625,15 @@ def rule_position_token(prog):
         if not b["p"].startswith("lsp4spl::features") or "/tests" in c.file_of(b["sp"]) or b["k"] == "closure":
             continue
         for mc in hir.nodes(b["body"], "MethodCall"):
-            if mc["m"] not in ("find", "position", "take_while", "skip_while", "find_map") or not mc["args"]:
+            if mc["m"] not in ("find", "position", "take_while", "skip_while", "find_map", "any") or not mc["args"]:
                 continue
             if "Token" not in c.tstr(hir.strip(mc["recv"])["t"]):
+                continue
+            if mc["m"] == "any" and not any(
+                    x.get("k") == "Binary" and x["op"] in ("<", "<=", ">", ">=") and any(
+                        f_.get("k") == "Field" and f_["name"] in ("start", "end") for f_ in hir.nodes(x)) for x in hir.nodes(mc["args"][0])):
+                # `any` is a first-match search only when it asks for a bracket *in front of / behind a position* ("is there a `)` before
+                # the cursor"); whether the slice holds a closing bracket at all is another question
                 continue
             kinds = set()
             other = False
